@@ -29,7 +29,9 @@ type c18In struct {
 	Ki      string `json:"ki"`
 	Dest    string `json:"dest"`
 	Iss     string `json:"iss"`
-	Status  string `json:"status"`
+	Status  string `json:"status"` // class of the top-level StatusCode
+	Sub     string `json:"sub"`    // class of the StatusCode nested in it
+	Sx      string `json:"sx"`     // StatusMessage / StatusDetail present
 	Time    string `json:"time"`
 }
 
@@ -39,11 +41,13 @@ type c18Cfg struct {
 }
 
 type c18Vec struct {
-	Prop  string `json:"prop"`
-	Cfg   c18Cfg `json:"cfg"`
-	In    c18In  `json:"in"`
-	Class string `json:"class"`
-	Why   struct {
+	Prop    string   `json:"prop"`
+	Cfg     c18Cfg   `json:"cfg"`
+	Tc      c18Trust `json:"tc"`      // the trust configuration named by Cfg.Trust
+	Trusted []string `json:"trusted"` // keys the statement makes trusted under it
+	In      c18In    `json:"in"`
+	Class   string   `json:"class"`
+	Why     struct {
 		Framing  bool `json:"framing"`
 		Odd      bool `json:"odd"`
 		Sig      bool `json:"sig"`
@@ -55,6 +59,9 @@ type c18Vec struct {
 		Stale    bool `json:"stale"`
 		Fresh    bool `json:"fresh"`
 		Two      bool `json:"two"`
+		Nested   bool `json:"nested"`
+		CfgOdd   bool `json:"cfgodd"`
+		NoIdP    bool `json:"noidp"`
 	} `json:"why"`
 	Pred struct {
 		Verdict string `json:"verdict"`
@@ -65,7 +72,7 @@ type c18Vec struct {
 }
 
 var c18Base = c18In{Entry: "form", Framing: "ok", Root: "ok", Sig: "root", Key: "idp1", Ki: "cert",
-	Dest: "eq", Iss: "eq", Status: "Success", Time: "fresh"}
+	Dest: "eq", Iss: "eq", Status: "Success", Sub: "none", Sx: "none", Time: "fresh"}
 
 // c18CaseKey names the abstract case by the fields in which it differs from the base case.
 func c18CaseKey(v *c18Vec) string {
@@ -83,6 +90,8 @@ func c18CaseKey(v *c18Vec) string {
 	add("dest", v.In.Dest, c18Base.Dest)
 	add("iss", v.In.Iss, c18Base.Iss)
 	add("status", v.In.Status, c18Base.Status)
+	add("sub", v.In.Sub, c18Base.Sub)
+	add("sx", v.In.Sx, c18Base.Sx)
 	add("time", v.In.Time, c18Base.Time)
 	return strings.Join(parts, ":")
 }
@@ -188,20 +197,11 @@ type c18Fields struct {
 	RootAlt int
 	Dest    *string
 	Iss     *string
-	Status  string // class
+	Status  string // class of the top-level StatusCode
+	Sub     string // class of the nested StatusCode ("" / "none": not nested)
+	SX      string // "msg" | "detail" | "both": StatusMessage / StatusDetail ("" / "none": neither)
+	Alt     int    // picks the representatives of the open Status classes
 	II      *string
-}
-
-func c18StatusValue(cls string) string {
-	switch cls {
-	case "Success":
-		return statusOK
-	case "Requester":
-		return statusReq
-	case "Responder":
-		return statusResp
-	}
-	return ""
 }
 
 func c18Element(f c18Fields) *etree.Element {
@@ -225,13 +225,7 @@ func c18Element(f c18Fields) *etree.Element {
 		is.CreateAttr("Format", "urn:oasis:names:tc:SAML:2.0:nameid-format:entity")
 		is.SetText(*f.Iss)
 	}
-	switch f.Status {
-	case "absent":
-	case "nocode":
-		el.CreateElement("samlp:Status")
-	default:
-		el.CreateElement("samlp:Status").CreateElement("samlp:StatusCode").CreateAttr("Value", c18StatusValue(f.Status))
-	}
+	c18StatusInto(el, f)
 	return el
 }
 
@@ -334,7 +328,7 @@ func c18Build(v *c18Vec, now time.Time, rng *rand.Rand) *c18Built {
 	}
 	rootAlt := rng.Intn(3)
 	fin := c18Fields{ID: fmt.Sprintf("id-lr-%08x", rng.Uint32()), Root: in.Root, RootAlt: rootAlt,
-		Dest: b.DestStr, Iss: b.IssStr, Status: in.Status, II: iiText}
+		Dest: b.DestStr, Iss: b.IssStr, Status: in.Status, Sub: in.Sub, SX: in.Sx, Alt: rng.Intn(60), II: iiText}
 	good := func(id string) c18Fields {
 		return c18Fields{ID: id, Root: "ok", Dest: sp(spSLO), Iss: sp(idpEntityID), Status: "Success",
 			II: sp(now.Add(-time.Second).UTC().Format("2006-01-02T15:04:05.000Z"))}
@@ -522,14 +516,6 @@ func c18Build(v *c18Vec, now time.Time, rng *rand.Rand) *c18Built {
 		}
 	}
 	return b
-}
-
-func c18SP(trust string) *saml.ServiceProvider {
-	keys := []keyUse{{"signing", key("idp1").CertB64()}}
-	if trust == "two" {
-		keys = []keyUse{{"signing", key("idp1").CertB64()}, {"", key("idp2").CertB64()}, {"encryption", key("idpenc").CertB64()}}
-	}
-	return newSP(idpMetadata(keys))
 }
 
 type c18Obs struct {
